@@ -69,6 +69,10 @@ TFiles == /\ IsEvent("Files")
 \* the body as sent: e.instr is "valid", "invalid" or "n/a" (nothing to judge)
 WireOK(e)     == e.ok /\ e.instr # "invalid" /\ LET j == Canon(e.json) S == Canon(e.sch) IN Validates(j, S, doc) /\ Described(j, S, doc)
 ContractOK(e) == LET j == Enc(schema, e.val) S == Canon(e.sch) IN Validates(j, S, doc) /\ Described(j, S, doc)
+C05Known(e) == LET top == e.val.type IN
+                 \/ ("D_nested_codec_ignored" \in Dev /\ NestedAnnotated(schema, top) /\ Canon(e.json) = EncPlainNested(schema, e.val))
+                 \/ ("D_enum_annotations_ignored" \in Dev /\ EnumAnnotated(schema, top))
+                 \/ ("D_flatten_of_root_unwrap" \in Dev /\ FlattenOfRootUnwrap(schema, top))
 CheckHow(e) ==
   \* a value that breaks a required rule is not a request the server accepts nor a reply it sends
   IF e.hasVal /\ ~SatisfiesRules(schema, e.val) THEN "ok"
@@ -78,7 +82,9 @@ CheckHow(e) ==
         ELSE IF "D_oneof_schema" \in Dev /\ OneofCfgReachable(schema, e.val.type) THEN "D_oneof_schema"
         ELSE "contract_form_invalid")
   ELSE IF WireOK(e) THEN "ok"
-  ELSE IF e.hasVal /\ Canon(e.json) # Enc(schema, e.val) THEN "wire_not_contract_form"   \* C05's business, not the document's
+  \* a wire form that is a listed finding of C05 (the server does not speak the contract form there) is that
+  \* finding; any other body the document does not accept is a violation here, whoever is to blame
+  ELSE IF e.hasVal /\ Canon(e.json) # Enc(schema, e.val) /\ C05Known(e) THEN "wire_not_contract_form"
   ELSE "wire_invalid"
 TCheck == /\ IsEvent("Check")
           /\ "C06" \in Enforce => LET h == CheckHow(Tr[l]) IN Say(h \in {"ok", "wire_not_contract_form", "D_oneof_schema", "D_openapi_nested_flatten", "D_openapi_wkt_as_objects"}, h)
